@@ -1035,7 +1035,11 @@ class MySQLParser(SQLParser):
 
     @_('FLOAT')
     def float(self, p):
-        return float(p[0])
+        value = float(p[0])
+        if value in (float('inf'), float('-inf')):
+            # more than a double can hold: inf is not the value that is written
+            raise ParsingException(f'Number is out of range: {p[0][:20]}...')
+        return value
 
     @_('INTEGER')
     def integer(self, p):
